@@ -35,11 +35,12 @@ type c05Scenario struct {
 
 func init() {
 	register(&PropDef{
-		ID:   "C05",
-		Rule: "scenario = (client or component, SM on/off, inbound element sequence incl. <r/>, <a/>, sizes up to 70 KiB, optional cut, segmentation, latency, handler behaviour); non-trivial = session established and at least one inbound element delivered; distinct = distinct (scenario hash, schedule hash)",
-		Real: []string{"xmpp.Client / xmpp.Component receive loops", "xmpp.Router and per-packet route goroutines", "xmpp.XMPPTransport", "stanza.NextPacket and codec"},
-		Stub: []string{"TCP (simnet)", "XMPP server (scripted model)", "clock (synctest)", "goroutine scheduling (token scheduler)", "sync.RWMutex (equivalent shim)"},
-		Run:  runC05,
+		ID:    "C05",
+		Rule:  "scenario = (client or component, SM on/off, inbound element sequence incl. <r/>, <a/>, sizes up to 70 KiB, optional cut, segmentation, latency, handler behaviour); non-trivial = session established and at least one inbound element delivered; distinct = distinct (scenario hash, schedule hash)",
+		Real:  []string{"xmpp.Client / xmpp.Component receive loops", "xmpp.Router and per-packet route goroutines", "xmpp.XMPPTransport", "stanza.NextPacket and codec"},
+		Stub:  []string{"TCP (simnet)", "XMPP server (scripted model)", "clock (synctest)", "goroutine scheduling (token scheduler)", "sync.RWMutex (equivalent shim)"},
+		Run:   runC05,
+		Reach: []string{"c05.websocket", "c05.backpressure", "c05.r_answered", "c05.after_reconnect"},
 	})
 }
 
